@@ -9,6 +9,9 @@ import sys, os, random, collections
 sys.path.insert(0, os.path.join(os.path.dirname(os.path.abspath(__file__)), ".."))
 from vf import build as B, gen as G, llir, engine_e
 
+MUL = "--mul" in sys.argv
+if MUL:
+    sys.argv.remove("--mul")
 N = int(sys.argv[1]) if len(sys.argv) > 1 else 400
 rnd = random.Random(int(sys.argv[2]) if len(sys.argv) > 2 else 1)
 
@@ -21,6 +24,12 @@ def rint(d):
     if d <= 0 or rnd.random() < 0.3:
         return rnd.choice(INT_LEAVES) if rnd.random() < 0.75 else ("k", rnd.randint(-130, 130))
     t = rnd.random()
+    if MUL and t < 0.12:
+        return ("wmul", rint(d - 1), rint(d - 1))
+    if MUL and t < 0.2:
+        return (rnd.choice(["tr8", "tr16", "tru8", "tru16"]), rint(d - 1))
+    if MUL and t < 0.25:
+        return ("lshr", rint(d - 1), rnd.randint(1, 17))
     if t < 0.2:
         return ("add", rint(d - 1), ("k", rnd.randint(-40, 40)))
     if t < 0.3:
@@ -50,6 +59,8 @@ def rbool(d):
     t = rnd.random()
     if d <= 0 or t < 0.55:
         return (rnd.choice(["lt", "le", "gt", "ge", "eq", "ne"]), rint(d - 1), rint(d - 1) if rnd.random() < 0.4 else ("k", rnd.randint(-130, 130)))
+    if MUL and t < 0.62:
+        return (rnd.choice(["omul16f", "omulu16f", "omul32f"]), rint(d - 1), rint(d - 1))
     if t < 0.7:
         return ("andb", rbool(d - 1), rbool(d - 1))
     if t < 0.85:
@@ -77,6 +88,18 @@ def rust(e):
         return "(%s + %s)" % (rust(e[1]), rust(e[2]))
     if k == "sub":
         return "(%s - %s)" % (rust(e[1]), rust(e[2]))
+    if k == "wmul":
+        return "(%s.wrapping_mul(%s))" % (rust(e[1]), rust(e[2]))
+    if k in ("tr8", "tr16", "tru8", "tru16"):
+        return "(%s as %s as i32)" % (rust(e[1]), {"tr8": "i8", "tr16": "i16", "tru8": "u8", "tru16": "u16"}[k])
+    if k == "lshr":
+        return "(((%s as u32) >> %d) as i32)" % (rust(e[1]), e[2])
+    if k == "omul16f":
+        return "((%s as i16).overflowing_mul(%s as i16).1)" % (rust(e[1]), rust(e[2]))
+    if k == "omulu16f":
+        return "((%s as u16).overflowing_mul(%s as u16).1)" % (rust(e[1]), rust(e[2]))
+    if k == "omul32f":
+        return "(%s.overflowing_mul(%s).1)" % (rust(e[1]), rust(e[2]))
     if k == "shl":
         return "(%s.wrapping_shl(%d))" % (rust(e[1]), e[2])
     if k == "shr":
@@ -134,6 +157,23 @@ def ev(e, a, b):
         return w32(ev(e[1], a, b) + ev(e[2], a, b))
     if k == "sub":
         return w32(ev(e[1], a, b) - ev(e[2], a, b))
+    if k == "wmul":
+        return w32(ev(e[1], a, b) * ev(e[2], a, b))
+    if k in ("tr8", "tr16", "tru8", "tru16"):
+        n = 8 if k.endswith("8") else 16
+        x = ev(e[1], a, b) & ((1 << n) - 1)
+        return x - (1 << n) if (k[2] != "u" and x >= 1 << (n - 1)) else x
+    if k == "lshr":
+        return w32((ev(e[1], a, b) & 0xFFFFFFFF) >> e[2])
+    if k == "omul16f":
+        x, y = ev(("tr16", e[1]), a, b), ev(("tr16", e[2]), a, b)
+        return not -(1 << 15) <= x * y < (1 << 15)
+    if k == "omulu16f":
+        x, y = ev(("tru16", e[1]), a, b), ev(("tru16", e[2]), a, b)
+        return not x * y < (1 << 16)
+    if k == "omul32f":
+        x, y = ev(e[1], a, b), ev(e[2], a, b)
+        return not -(1 << 31) <= x * y < (1 << 31)
     if k == "shl":
         return w32(ev(e[1], a, b) << e[2])
     if k == "shr":
@@ -198,6 +238,12 @@ def mutate(e):
             return (k, e[1], max(-128, min(127, e[2] + rnd.choice([-1, 1]))))
         if k in ("min", "max"):
             return ("max" if k == "min" else "min", e[1], e[2])
+        if k in ("tr8", "tr16", "tru8", "tru16"):
+            return (rnd.choice(["tr8", "tr16", "tru8", "tru16"]), e[1])
+        if k in ("omul16f", "omulu16f", "omul32f"):
+            return (rnd.choice(["omul16f", "omulu16f", "omul32f"]), e[1], e[2])
+        if k == "lshr":
+            return (rnd.choice(["lshr", "shr"]), e[1], max(1, e[2] + rnd.choice([-1, 0, 1])))
         if k in ("shl", "shr", "and", "wadd8"):
             return (k, e[1], e[2] + rnd.choice([-1, 1]) if k != "and" else e[2] ^ 1)
         if k == "andb":
@@ -235,6 +281,16 @@ def rewrite(e):
         return ("ite", ("notb", e[1]), e[3], e[2])
     if k == "add" and r < 0.5:
         return ("add", e[2], e[1])
+    if k == "wmul" and e[1][0] == "shl" and r < 0.7:
+        return ("shl", ("wmul", e[1][1], e[2]), e[1][2])
+    if k == "wmul" and e[2][0] == "shl" and r < 0.7:
+        return ("shl", ("wmul", e[2][1], e[1]), e[2][2])
+    if k == "wmul" and r < 0.5:
+        return ("wmul", e[2], e[1])
+    if k in ("tr8", "tru8") and e[1][0] in ("wmul", "add", "sub") and r < 0.6:
+        return (k, (e[1][0], ("tr16", e[1][1]), ("tru16", e[1][2])))
+    if k in ("omul16f", "omulu16f", "omul32f") and r < 0.5:
+        return (k, e[2], e[1])
     if k == "notb" and e[1][0] == "notb":
         return e[1][1]
     return e
